@@ -432,9 +432,209 @@ def run_circuit(case):
     return out
 
 
+def laplace_at(e, s0):
+    """Laplace transform (by sympy, independent of lcapy) of a causal source expression in t, evaluated at s0"""
+    e = sp.sympify(e)
+    tt = [x for x in e.free_symbols if x.name == 't']
+    if not e.free_symbols:
+        return e / s0
+    if len(tt) != 1 or len(e.free_symbols) != 1:
+        raise ValueError('unexpected symbols in source %s' % e)
+    t = sp.Symbol('t', real=True)
+    ss = sp.Symbol('s_', positive=True)
+    F = sp.laplace_transform(e.subs(tt[0], t), t, ss, noconds=True)
+    if F.has(sp.LaplaceTransform):
+        raise ValueError('no Laplace transform for %s' % e)
+    return F.subs(ss, s0)
+
+
+def mat_rs(M):
+    M = sp.Matrix(M)
+    return [[rs(M[i, j]) for j in range(M.shape[1])] for i in range(M.shape[0])]
+
+
 def run_ss(c, case, s0):
-    raise NotImplementedError('ss')
+    import random
+    import lcapy
+    from lcapy import Circuit
+    rng = random.Random(case.get('seed', 1) + 77)
+    out = {}
+    ss = c.ss
+    A, B, C, D = [sp.Matrix(m) for m in (ss.A, ss.B, ss.C, ss.D)]
+    out['A'], out['B'], out['C'], out['D'] = mat_rs(A), mat_rs(B), mat_rs(C), mat_rs(D)
+    out['x'] = [str(x) for x in sp.Matrix(ss.x)]
+    out['y'] = [str(x) for x in sp.Matrix(ss.y)]
+    out['x0'] = [rs(x) for x in sp.Matrix(ss.x0)]
+    u = [sp.sympify(x) for x in sp.Matrix(ss.u)]
+    out['u'] = [str(x) for x in u]
+    try:
+        out['U'] = [rs(laplace_at(x, s0)) for x in u]
+    except Exception as e:
+        out['U_error'] = type(e).__name__ + ': ' + str(e)[:100]
+    svar = lcapy.s.sympy
+    pts = [s0, s0 + 1, s0 + sp.Rational(5, 3)]
+    out['points'] = [rs(p) for p in pts]
+    # what the class computes from the matrices (sympy inverse / determinant = oracle)
+    try:
+        G = sp.Matrix(ss.G)
+        out['G'] = [[rs(sp.sympify(G[i, j]).subs(svar, s0)) for j in range(G.shape[1])] for i in range(G.shape[0])]
+    except Exception as e:
+        out['G_error'] = type(e).__name__ + ': ' + str(e)[:100]
+    try:
+        P = sp.sympify(ss.characteristic_polynomial().sympy)
+        out['P'] = [rs(P.subs(svar, p)) for p in pts]
+        out['Psym'] = str(P)
+    except Exception as e:
+        out['P_error'] = type(e).__name__ + ': ' + str(e)[:100]
+    try:
+        Phi = sp.Matrix(ss.Phi)
+        out['Phi'] = [[rs(sp.sympify(Phi[i, j]).subs(svar, s0)) for j in range(Phi.shape[1])] for i in range(Phi.shape[0])]
+    except Exception as e:
+        out['Phi_error'] = type(e).__name__ + ': ' + str(e)[:100]
+    # the substituted netlist
+    ssnet = []
+    for nm, e in c.elements.items():
+        ssnet.append({'name': nm, 'type': e.type, 'nodes': [str(n) for n in e.node_names], 'ss': str(e._ss_model()),
+                      'is_L': bool(e.is_inductor), 'is_C': bool(e.is_capacitor),
+                      'is_V': bool(e.is_independent_voltage_source), 'is_I': bool(e.is_independent_current_source)})
+    out['ssnet'] = ssnet
+    # reference: circuit analysis of the same circuit
+    ref = []
+    for yn in out['y']:
+        try:
+            if yn.startswith('v_'):
+                node = yn[2:-3]
+                ref.append(at(c[node].V(lcapy.s), {'s': s0}))
+            else:
+                nm = yn[2:-3]
+                ref.append(at(c[nm].I(lcapy.s), {'s': s0}))
+        except Exception:
+            ref.append(None)
+    out['yref'] = ref
+    xref = []
+    for xn in out['x']:
+        try:
+            nm = xn[2:-3]
+            xref.append(at(c[nm].I(lcapy.s) if xn.startswith('i_') else c[nm].V(lcapy.s), {'s': s0}))
+        except Exception:
+            xref.append(None)
+    out['xref'] = xref
+    # natural frequencies from circuit analysis: determinant of the MNA matrix of the Laplace-domain analysis
+    try:
+        subs_ = c.sub
+        if len(subs_) == 1:
+            sn = list(subs_.values())[0]
+            out['mna_kind'] = str(sn.kind)
+            Am = sn.mna._A
+            out['mna_det'] = [rs(Am.subs(svar, p).det()) for p in pts]
+    except Exception as e:
+        out['mna_det_error'] = type(e).__name__ + ': ' + str(e)[:100]
+    # random excitations of the substituted (resistive) circuit, solved by lcapy's own dc analysis
+    exc = []
+    states = [d['name'] for d in ssnet if d['is_L']] + [d['name'] for d in ssnet if d['is_C']]
+    srcs = [d['name'] for d in ssnet if d['is_V']] + [d['name'] for d in ssnet if d['is_I']]
+    out['state_order'] = states
+    out['source_order'] = srcs
+    for trial in range(2):
+        X = {nm: sp.Rational(rng.randint(-6, 6), rng.randint(1, 3)) for nm in states}
+        Uv = {nm: sp.Rational(rng.randint(-6, 6), rng.randint(1, 3)) for nm in srcs}
+        lines = []
+        newname = {}
+        for d in ssnet:
+            toks = d['ss'].split(';')[0].split()
+            if d['is_L']:
+                lines.append('%s %s %s dc {%s}' % (toks[0], toks[1], toks[2], -X[d['name']]))
+                newname[d['name']] = toks[0]
+            elif d['is_C']:
+                lines.append('%s %s %s dc {%s}' % (toks[0], toks[1], toks[2], X[d['name']]))
+                newname[d['name']] = toks[0]
+            elif d['is_V'] or d['is_I']:
+                lines.append('%s %s %s dc {%s}' % (toks[0], toks[1], toks[2], Uv[d['name']]))
+                newname[d['name']] = toks[0]
+            else:
+                lines.append(d['ss'].split(';')[0])
+                newname[d['name']] = toks[0]
+        try:
+            n = Circuit()
+            for l in lines:
+                n.add(l)
+            dotx = []
+            for nm in states:
+                e = c.elements[nm]
+                if e.is_inductor:
+                    dotx.append(rs(sp.sympify(n[newname[nm]].V.dc.sympy) / sp.sympify(e.cpt.L.sympy)))
+                else:
+                    dotx.append(rs(sp.sympify(n[newname[nm]].I.dc.sympy) / sp.sympify(e.cpt.C.sympy)))
+            ys = []
+            for yn in out['y']:
+                if yn.startswith('v_'):
+                    ys.append(rs(n[yn[2:-3]].V.dc.sympy))
+                else:
+                    ys.append(rs(n[newname[yn[2:-3]]].I.dc.sympy))
+            exc.append({'X': [rs(X[k]) for k in states], 'U': [rs(Uv[k]) for k in srcs], 'dotx': dotx, 'y': ys, 'lines': lines})
+        except Exception as e:
+            exc.append({'error': type(e).__name__ + ': ' + str(e)[:120], 'lines': lines})
+    out['excitations'] = exc
+    return out
 
 
 def run_mna(c, case, s0):
-    raise NotImplementedError('mna')
+    """the matrix equations shown by SystemEquations versus the A, Z, X the solver uses"""
+    import lcapy
+    out = {}
+    subs_ = c.sub
+    if len(subs_) != 1:
+        return {'skip': 'several analysis kinds'}
+    sn = list(subs_.values())[0]
+    mna = sn.mna
+    svar = lcapy.s.sympy
+    A, Z = mna._A, mna._Z
+    out['kind'] = str(sn.kind)
+    out['A'] = mat_rs(A.subs(svar, s0))
+    out['Z'] = [rs(sp.sympify(z).subs(svar, s0)) for z in Z]
+    forms = {}
+    for form in ('A y = b', 'b = A y', 'default', 'Ainv b = y'):
+        try:
+            eq = mna.matrix_equations(form=form, invert=False)
+            forms[form] = {'lhs': describe(unwrap(eq.lhs), svar, s0), 'rhs': describe(unwrap(eq.rhs), svar, s0)}
+        except Exception as ex:
+            forms[form] = {'error': type(ex).__name__ + ': ' + str(ex)[:120]}
+    out['forms'] = forms
+    try:
+        out['X'] = [str(x) for x in mna.X] if hasattr(mna, 'X') else None
+    except Exception:
+        out['X'] = None
+    try:
+        out['unknowns'] = [str(x) for x in mna._unknowns] if hasattr(mna, '_unknowns') else None
+    except Exception:
+        out['unknowns'] = None
+    return out
+
+
+def unwrap(x):
+    for a in ('expr', 'sympy'):
+        try:
+            y = getattr(x, a)
+            if isinstance(y, sp.Basic) or isinstance(y, sp.MatrixBase):
+                return y
+        except Exception:
+            pass
+    return x
+
+
+def describe(e, svar, s0):
+    """structure of one side of a matrix equation: list of factors, each a matrix of exact values / names, or ('inv', matrix)"""
+    fac = []
+    args = e.args if isinstance(e, (sp.MatMul, sp.Mul)) else [e]
+    for a in args:
+        if isinstance(a, (sp.MatPow, sp.Pow)) and a.args[1] == -1:
+            M = sp.Matrix(a.args[0])
+            fac.append({'inv': [[rs(sp.sympify(M[i, j]).subs(svar, s0)) for j in range(M.shape[1])] for i in range(M.shape[0])]})
+        else:
+            M = sp.Matrix(a)
+            vals = [[rs(sp.sympify(M[i, j]).subs(svar, s0)) for j in range(M.shape[1])] for i in range(M.shape[0])]
+            if any(v is None for row in vals for v in row):
+                fac.append({'names': [[str(M[i, j]) for j in range(M.shape[1])] for i in range(M.shape[0])]})
+            else:
+                fac.append({'vals': vals})
+    return fac
